@@ -1,4 +1,5 @@
 import PeptVerif.Lemmas.Mass
+import PeptVerif.Lemmas.Label
 import PeptVerif.Model.MassEnv
 /-!
 C02 — peptide mass and m/z equal the sum of their physical parts; agreement with an independent NIST reference.
@@ -273,5 +274,66 @@ theorem mass_eq_spec_concrete (res : ModVal → Res) (a : Annotation) (o : Opts)
 example : inDomain (Env.concrete fun _ => ⟨.ok 10, .ok 10, .ok (some 10), .error .valueError⟩)
     { seq := "PEPTIDTE".toList, static := some [⟨.str "[+10][1.5]^2@T,N-Term".toList, 1⟩] } Mass.ionP true none = true := by
   decide +kernel
+
+
+/-! ### the isotope-label path: sum of parts with the element substituted -/
+
+/-- the two encodings of every +1 ion agree (same obligation as `C03.ion_tables_agree`; needed here for fragment carriers) -/
+theorem ion_tables_ok : CompCalc.ionTablesOk = true := by decide +kernel
+
+open Pept.Mass Pept.CompCalc Pept.Label in
+/-- **mass of an isotope-labelled peptide = the sum of its parts with the element replaced by the label.**
+With global isotope labels `L` in force (argument or annotation; `lm` = the parsed map element ↦ label) the model's
+composition path returns, rounded last,
+
+  `[Σ residues + ion-type offset + charge carrier]` (= `chemMassL sb`, spelled out in the library's terms)
+  `+ labelShift sb lm`  — the label applied to residues, termini / ion offset and charge carrier
+  `+ [Σ mult·(composition mass of each modification) + isotope·mₙ]` (= `chemMassL mc`)
+  `+ labelShift mc lm` only with `use_isotope_on_mods`
+  `+ δ` (the plain mass shifts) `+ loss`,
+
+where `labelShift ν c lm` = Σ over the entries (element ↦ label) of count(element in c)·(m(label) − m(element)), each
+entry seeing the composition left by the previous ones (`labelShift_single`, `compGet_addAll`: counts add over residues,
+offset and carrier).  `chemMassL mc + δ` is the modification sum of the unlabelled specification up to the row gaps.
+Same shape as `C12.label_shift` (x − y = labelShift sequence-part + [use_isotope_on_mods] labelShift mod-part).
+Scope: no global static rule, no explicit adduct list (both are tied by correspondence on this path). -/
+theorem mass_label_eq_spec (env : Env) (a : Annotation) (o : Opts)
+    (L : List Mod) (lm : List (Key × Key)) (hL : effLabels a o = some L) (hLne : L ≠ [])
+    (hparse : parseIsotopeMods L = .ok lm)
+    (hstatic : a.static = none) (had : o.adducts = none) (had' : a.adducts = none)
+    (hres : KnownResidues a.seq) (hcons : AllConsistent env o.mono (writtenMods a))
+    (hadj : (lookup o.ion neutralAdj).isSome = true)
+    (hion : o.ion = ionP ∨ o.ion = ionN ∨ (lookup o.ion Gen.ionComp).isSome = true)
+    (hknown : ∀ c d, compMass env a o.ion (effCharge a o) o.isotope none (some L) o.useIsotopeOnMods = .ok (c, d) →
+      c.all (fun p => (elemMass o.mono p.1).isSome) = true) :
+    ∃ sb mc d, NodupKeys sb ∧ NodupKeys mc ∧
+      chemMassL (μ o.mono) sb = resSum o.mono a.seq + (fragmentAdjMass o.mono o.ion).getD 0
+        + carrierMassLib o.mono o.ion ((effCharge a o).getD 0) ∧
+      chemMassL (μ o.mono) mc + d + gapSum env o.mono (placedMods a o.ion)
+        = modsValue env o.mono (placedMods a o.ion) + (o.isotope : Rat) * Gen.neutronMass ∧
+      mass env a o = .ok (roundOpt (chemMassL (μ o.mono) sb + labelShift (μ o.mono) sb lm
+        + (chemMassL (μ o.mono) mc + (if o.useIsotopeOnMods then labelShift (μ o.mono) mc lm else 0)) + d + o.loss)
+        o.precision) :=
+  mass_label_of_tables ion_tables_ok env a o L lm hL hLne hparse hstatic had had' hres hcons hadj hion hknown
+
+open Pept.Label in
+/-- one label `element ↦ label`: the shift is (#atoms of the element) × (m(label) − m(element)) -/
+theorem label_shift_single (ν : Elem → Rat) (c : Comp) (el lab : Key) (h : el ≠ lab) :
+    labelShift ν c [(el, lab)] = compGet c el * (ν lab - ν el) := labelShift_single ν c el lab h
+
+open Pept.Label in
+/-- the atoms of an element add up over the merged parts (residues, ion offset, charge carrier) -/
+theorem label_count_additive (a b : Comp) (e : Elem) (hb : NodupKeys b) :
+    compGet (addAll a b) e = compGet a e + compGet b e := compGet_addAll a b e hb
+
+open Pept.Label in
+/-- relabelling a composition with distinct keys changes its mass by exactly `labelShift` -/
+theorem relabel_mass_shift (ν : Elem → Rat) (c : Comp) (lm : List (Key × Key)) (h : NodupKeys c) :
+    chemMassL ν (CompCalc.relabel c lm) = chemMassL ν c + labelShift ν c lm := relabel_mass ν c lm h
+
+-- non-vacuity: `<13C>` parses to C ↦ 13C; glycine residue + water: two carbons move, shift = 2·(m(13C) − m(C))
+example : CompCalc.parseIsotopeMods [⟨.str "13C".toList, 1⟩] = .ok [(kC, Spec.k "13C")] := by decide +kernel
+example : Label.labelShift (fun e => if e = Spec.k "13C" then 13 else if e = kC then 12 else 1)
+    [(kC, 2), (kH, 5), (kN, 1), (kO, 2)] [(kC, Spec.k "13C")] = 2 := by decide +kernel
 
 end Pept.C02
